@@ -622,6 +622,16 @@ fn gen_c12(tier: &Tier, rng: &mut Rng, w: usize, nw: usize, out: &mut Vec<Case>)
         push_list(wild_tlf(rng), out);
     }
     if w == 0 {
+        // valid octet-string fields whose own encoding is very long: the field size must be subtracted exactly
+        for pad in LONG_FIELD_PADS {
+            for valid in [true, false] {
+                let (x, tid) = long_tlf_message(pad, valid);
+                out.push(
+                    Case::new("tlf-long-octet", vec![format!("stream {} 1", tok(&x))])
+                        .with_aux(vec![if valid { format!("MS(x{},7,9,C(~))", hex(&tid)) } else { "err:TlfLengthUnderflow".to_string() }]),
+                );
+            }
+        }
         // very long fields: a list field and an octet field with many leading zero-nibble bytes
         for pad in LONG_FIELD_PADS {
             let mut t = vec![0xf0u8];
